@@ -180,6 +180,7 @@ type Rec struct {
 	Arbitrary   []map[string]string
 
 	HandlerErr   string
+	Wrote        bool   // the application stack released a status line or body bytes to the client
 	AppHook      string // "<event>:<mode>" when an armed application listener fired in this request
 	HandlerRan   bool
 	HandlerStart int // value of the global sequence counter when the wrapped route handler began
@@ -476,7 +477,20 @@ func (w *World) buildStack() http.Handler {
 	}
 	fail := authboss.RespondRedirect
 	routes := map[string]http.Handler{
-		"/public":                probe("public"),
+		"/public": probe("public"),
+		"/cached": http.HandlerFunc(func(rw http.ResponseWriter, r *http.Request) {
+			// a page the browser revalidates: 304 Not Modified, no body
+			p := Probe{Ran: true, Route: "cached", Sess: map[string]string{}}
+			p.UID, _ = ab.CurrentUserID(r)
+			for _, k := range SessionKeys {
+				if v, ok := authboss.GetSession(r, k); ok {
+					p.Sess[k] = v
+				}
+			}
+			w.cur.Probe = p
+			rw.Header().Set("ETag", `"v1"`)
+			rw.WriteHeader(http.StatusNotModified)
+		}),
 		"/protected/plain":       authboss.Middleware2(ab, authboss.RequireNone, fail)(guard(probe("plain"), true, true)),
 		"/protected/full":        authboss.Middleware2(ab, authboss.RequireFullAuth, fail)(guard(probe("full"), true, true)),
 		"/protected/2fa":         authboss.Middleware2(ab, authboss.Require2FA, fail)(guard(probe("2fa"), true, true)),
@@ -515,6 +529,20 @@ func (w *World) buildStack() http.Handler {
 		http.NotFound(rw, r)
 	})
 	var h http.Handler = mux
+	// a piece of the application's own middleware in front of every route (locale switcher, one-shot
+	// notices): ?_lang=xx stores the visitor's language in the session, ?_drop=key removes an application
+	// key — queued in the same response as whatever the route itself does
+	site := h
+	h = http.HandlerFunc(func(rw http.ResponseWriter, r *http.Request) {
+		q := r.URL.Query()
+		if v := q.Get("_lang"); v != "" {
+			authboss.PutSession(rw, "app_lang", v)
+		}
+		if k := q.Get("_drop"); strings.HasPrefix(k, "app_") {
+			authboss.DelSession(rw, k)
+		}
+		site.ServeHTTP(rw, r)
+	})
 	h = authboss.ModuleListMiddleware(ab)(h)
 	if w.Cfg.UseExpire {
 		h = expire.Middleware(ab)(h)
@@ -837,7 +865,7 @@ func (w *World) DoOn(h http.Handler, b *Browser, rq Req) *Rec {
 				rec.PanicStack = string(debug.Stack())
 			}
 		}()
-		h.ServeHTTP(rr, req)
+		h.ServeHTTP(&noteWriter{ResponseWriter: rr, wrote: &rec.Wrote}, req)
 	}()
 	w.cur = nil
 	w.Faults = nil
@@ -1071,4 +1099,17 @@ func (w *World) HashPw(pw string) string {
 		panic(err)
 	}
 	return h
+}
+
+// noteWriter sits between the recorder and the stack under observation and notes whether anything
+// was released to the client at all (a recorder alone cannot tell an explicit 200 from silence).
+type noteWriter struct {
+	http.ResponseWriter
+	wrote *bool
+}
+
+func (n *noteWriter) WriteHeader(code int) { *n.wrote = true; n.ResponseWriter.WriteHeader(code) }
+func (n *noteWriter) Write(b []byte) (int, error) {
+	*n.wrote = true
+	return n.ResponseWriter.Write(b)
 }
